@@ -34,7 +34,6 @@ import hashlib
 import json
 import os
 import re
-import resource
 import shutil
 import subprocess
 import time
@@ -672,25 +671,49 @@ def private_native(pid):
     return nat
 
 
-def _limits():
+def _cmd(nat):
     # a lexer that makes no progress pushes tokens forever: cap the address space instead of eating the machine
-    resource.setrlimit(resource.RLIMIT_AS, (2 << 30, 2 << 30))
+    # (prlimit instead of a preexec_fn, so that python can spawn without forking this large process)
+    pl = shutil.which("prlimit")
+    return ([pl, "--as=%d" % (2 << 30)] if pl else []) + [nat]
+
+
+def _kv(lines):
+    out = {}
+    for ln in lines:
+        if "=" in ln:
+            k, v = ln.split("=", 1)
+            out[k] = v
+    return out
 
 
 def native_run(nat, sub, text, timeout=20):
     try:
-        p = subprocess.run([nat, "lex", sub, text.hex()], stdout=subprocess.PIPE, stderr=subprocess.PIPE, text=True, timeout=timeout,
-                           preexec_fn=_limits, env=common.ENV)
+        p = subprocess.run(_cmd(nat) + ["lex", sub, text.hex()], stdout=subprocess.PIPE, stderr=subprocess.PIPE, text=True, timeout=timeout,
+                           env=common.ENV)
     except subprocess.TimeoutExpired:
         return {"hang": "no result after %d s" % timeout}
-    out = {}
-    for ln in p.stdout.splitlines():
-        if "=" in ln:
-            k, v = ln.split("=", 1)
-            out[k] = v
+    out = _kv(p.stdout.splitlines())
     if p.returncode != 0 and "panic" not in out:
         out["hang"] = "process ended with status %d (memory limit 2 GiB): %s" % (p.returncode, p.stderr[-200:].replace("\n", " "))
     return out
+
+
+def native_batch(nat, sub, texts, timeout=120):
+    """one process for many texts (translator validation); falls back to single runs when the batch does not finish"""
+    try:
+        p = subprocess.run(_cmd(nat) + ["lex", sub + "-batch"] + [t.hex() or "-" for t in texts], stdout=subprocess.PIPE, stderr=subprocess.PIPE,
+                           text=True, timeout=timeout, env=common.ENV)
+    except subprocess.TimeoutExpired:
+        p = None
+    if p is None or p.returncode != 0:
+        return [native_run(nat, sub, t) for t in texts]
+    per = [[] for _ in texts]
+    for ln in p.stdout.splitlines():
+        m = re.match(r"(\d+)\.(.*)$", ln)
+        if m and int(m.group(1)) < len(texts):
+            per[int(m.group(1))].append(m.group(2))
+    return [_kv(x) for x in per]
 
 
 def parse_native_tokens(res):
@@ -902,9 +925,10 @@ def validate_translator(par, lay, nat):
         raise Inconclusive("unit-test inputs of lexer.rs / lib.rs not found (%d / %d; the test modules changed shape)" % (len(lex_texts), len(line_texts)))
     it = make_interp(par, lay)
     runs = 0
-    for s in lex_texts + EXTRA_TEXTS:
+    all_lex = lex_texts + EXTRA_TEXTS
+    reals = native_batch(nat, "tokens", [x.encode("utf-8") for x in all_lex])
+    for s, real in zip(all_lex, reals):
         tb = s.encode("utf-8")
-        real = native_run(nat, "tokens", tb)
         st, r = enc_run(it, "lex", [Slice([Int(b, "u8") for b in tb], "str")])
         runs += 1
         if st == "panic" or "panic" in real or "hang" in real:
@@ -921,9 +945,10 @@ def validate_translator(par, lay, nat):
             e_errs.append((nm, z3.simplify(a).as_long(), z3.simplify(b).as_long()))
         if (toks, starts, errs) != (e_toks, e_starts, e_errs):
             raise Inconclusive("encoding wrong: lex(%r): executor %s %s %s, real function %s %s %s" % (s, e_toks, e_starts, e_errs, toks, starts, errs))
-    for s in line_texts + EXTRA_LINE_TEXTS:
+    all_lines = line_texts + EXTRA_LINE_TEXTS
+    reals = native_batch(nat, "lines", [x.encode("utf-8") for x in all_lines])
+    for s, real in zip(all_lines, reals):
         tb = s.encode("utf-8")
-        real = native_run(nat, "lines", tb)
         text = Slice([Int(b, "u8") for b in tb], "str")
         st, ls = enc_run(it, "compute_line_starts", [text])
         runs += 1
